@@ -84,6 +84,9 @@ func runC08(c *core.Ctx) {
 			c.Broken("C08-WIRING", key, "function not found")
 			continue
 		}
+		if f.typ != "" && transformDelegation(c, key, fn, f.pack) {
+			continue
+		}
 		wiringRule(c, key, fn, f.pack)
 		crRule(c, key, fn, f.pack)
 		crGuardRule(c, key, fn, f.pack)
@@ -488,6 +491,24 @@ func chainRule(c *core.Ctx) {
 					}
 				}
 				// a septet loaded twice from the same element is one character: add every load of the same element address form
+			}
+		}
+		// a decoding transformer that consults no table itself but hands the septets to the package's Decode (which is
+		// judged by this very rule): what it hands over and what it does with the answer is C08-WIRING #delegates
+		if len(lookups) == 0 && f.typ != "" && !f.encode {
+			if dec := c.Prog.SSAFunc(c.Prog.LookupFunc(gsmPkg, "Decode")); dec != nil {
+				n := 0
+				for _, b := range fn.Blocks {
+					for _, ins := range b.Instrs {
+						if call, ok := ins.(*ssa.Call); ok && call.Call.StaticCallee() == dec {
+							n++
+						}
+					}
+				}
+				if n == 1 {
+					c.OK("C08-CHAIN", key, pos, "the table lookups are those of Decode, called once")
+					continue
+				}
 			}
 		}
 		// a membership predicate of the package (func(r rune) bool: true iff r is in one of the two tables) consulted
